@@ -12,8 +12,8 @@ CHECKS = {
          "computed F_sh;obst per window is an input (C12); embedded tables are data (C20)", PBT + " + exhaustive enumeration of zone x orientation, independent f64 reference model"),
  "C11": ("exploration", "Generated and shipped models: areas, net heights, A_ref, volumes, compactness, per-wall envelope membership and the two ventilation-rate implementations against an f64 recomputation; scaling law as metamorphic relation; classifiers on all class boundaries +-4096 ulps and 10^6 values (thorough: every f32 in [-720,1080]), parser vs model on [0,360].",
          "trusts rustc/std f64 rem_euclid for the exact residue", PBT + " with f64 reference model, metamorphic scaling, boundary-value and exhaustive f32 enumeration"),
- "C13": ("exploration", "Generated obstacle sets (0..200 boxes / posed polygons incl. duplicates and shared centres) x leaf sizes x rays: BVH answer must equal testing every element and build must terminate (worker process + watchdog); polygon/ray answers must match an exact f64 reference outside a 1 mm band; bounding boxes contain all corners; reveal quads of set-back windows must coincide with first-principles quads.",
-         "trusts rustc/std f64, proptest RNG/shrinker; oracle geometry written independently in f64", PBT + " with differential oracle (BVH vs exhaustive) and exact f64 reference geometry"),
+ "C13": ("exploration", "Generated obstacle sets (0..200 boxes / posed polygons incl. duplicates and shared centres) x leaf sizes x rays: BVH answer must equal testing every element and build must terminate (worker process + watchdog); polygon/ray answers must match an exact f64 reference outside a 1 mm band; bounding boxes contain all corners; reveal quads of set-back windows must coincide with first-principles quads. Thorough tier only: a libFuzzer campaign over bytes decoded into boxes on a 1 cm grid with exact duplicates, leaf size and rays, with the BVH-vs-exhaustive oracle inside the target.",
+         "trusts rustc/std f64, proptest RNG/shrinker; oracle geometry written independently in f64", PBT + " with differential oracle (BVH vs exhaustive) and exact f64 reference geometry; coverage-guided fuzzing (libFuzzer via cargo-fuzz, arbitrary::Unstructured decoding) in the thorough tier"),
  "C20": ("exploration", "All 365 dates (exhaustive); latitude x declination x hour-angle grid + random points against unit-vector spherical astronomy (directions, incidence angles, convention ties with the model's normals); radiation identities on random inputs and all 8760 hours of the shipped weather file; all 32 zones x 9 classes x 12 months and July-day tables (exhaustive) incl. D3 against the shipped file.",
          "the shipped zonaD3.met is the source of the D3 tables; trusts rustc/std f64 trigonometry", PBT + " + exhaustive enumeration (dates, table cells, weather-file hours) against an f64 astronomical reference"),
 }
@@ -62,7 +62,10 @@ m = {
   },
   "engines": [{
     "name": "cteverif", "path": "/verif/harness", "serves_properties": [c["property_id"] for c in checks],
-    "kind_free_text": "Rust harness crate with path dependencies on /repo's crates (every run rebuilds what changed there): sharded deterministic proptest runners (seed = VERIF_SEED x property x sub-check x shard), exhaustive enumerations, f64 reference oracles, panic capture, worker processes with watchdog for subjects that may hang or crash, known-findings matcher, shrunk replay files, saved regression replays"
+    "kind_free_text": "Rust harness crate with path dependencies on /repo's crates (every run rebuilds what changed there): sharded deterministic proptest runners (seed = VERIF_SEED x property x sub-check x shard), exhaustive enumerations, f64 reference oracles, panic capture, worker processes with watchdog for subjects that may hang or crash, known-findings matcher, shrunk replay files, saved regression replays; drives the libFuzzer campaigns of /verif/fuzz in the thorough tiers"
+  }, {
+    "name": "cteverif-fuzz", "path": "/verif/fuzz", "serves_properties": ["C04", "C13", "C14", "C16", "C19"],
+    "kind_free_text": "cargo-fuzz crate (libfuzzer-sys, arbitrary) with seven targets (bvh, model_json, model_roundtrip, model_purge, bdl_text, ctehexml_text, aux_text), path dependencies on /repo's crates, in-target oracles, structure-aware custom mutators and class counters; built (cargo +nightly fuzz build --sanitizer none) and run by the harness as fixed-work campaigns; a crash becomes a VIOLATION whose replay file carries the input"
   }],
   "checks": checks,
   "not_applicable": not_applicable,
